@@ -46,6 +46,8 @@ type FK struct {
 	OnDelete string   `json:"on_delete,omitempty"`
 	// Short: the native DDL names no parent columns (REFERENCES p); only set when RefCols is the parent's primary key
 	Short bool `json:"short,omitempty"`
+	// CaseRef: the native DDL spells the parent table in another letter case (SQLite resolves names case-insensitively)
+	CaseRef bool `json:"case_ref,omitempty"`
 }
 
 type Check struct {
@@ -207,9 +209,9 @@ func (t Table) DDL(style Style) []string {
 		if i, ok := inlineFK[c.Name]; ok {
 			fk := t.FKs[i]
 			if fk.Short && style == StyleNative {
-				d += " references " + q(style, fk.RefTable) + actions(fk)
+				d += " references " + q(style, refName(style, fk)) + actions(fk)
 			} else {
-				d += " references " + q(style, fk.RefTable) + " (" + qs(style, fk.RefCols) + ")" + actions(fk)
+				d += " references " + q(style, refName(style, fk)) + " (" + qs(style, fk.RefCols) + ")" + actions(fk)
 			}
 		}
 		if inlineCheckCol == c.Name {
@@ -243,9 +245,9 @@ func (t Table) DDL(style Style) []string {
 			d = "CONSTRAINT " + q(style, fk.Name) + " "
 		}
 		if fk.Short && style == StyleNative {
-			d += "FOREIGN KEY (" + qs(style, fk.Cols) + ") REFERENCES " + q(style, fk.RefTable) + actions(fk)
+			d += "FOREIGN KEY (" + qs(style, fk.Cols) + ") REFERENCES " + q(style, refName(style, fk)) + actions(fk)
 		} else {
-			d += "FOREIGN KEY (" + qs(style, fk.Cols) + ") REFERENCES " + q(style, fk.RefTable) + " (" + qs(style, fk.RefCols) + ")" + actions(fk)
+			d += "FOREIGN KEY (" + qs(style, fk.Cols) + ") REFERENCES " + q(style, refName(style, fk)) + " (" + qs(style, fk.RefCols) + ")" + actions(fk)
 		}
 		defs = append(defs, d)
 	}
@@ -286,6 +288,18 @@ func actions(fk FK) string {
 		s += " ON DELETE " + fk.OnDelete
 	}
 	return s
+}
+
+// refName is the parent table's name as the foreign-key clause spells it.
+func refName(style Style, fk FK) string {
+	if fk.CaseRef && style == StyleNative && fk.RefTable != "" {
+		r := []rune(fk.RefTable)
+		if u := strings.ToUpper(string(r[0])); u != string(r[0]) {
+			return u + string(r[1:])
+		}
+		return strings.ToLower(string(r[0])) + string(r[1:])
+	}
+	return fk.RefTable
 }
 
 func (ix Index) DDL(style Style, table string) string {
